@@ -6,11 +6,16 @@
    `locate w p = Some s` the located start node; positions are the algorithm-independent names of
    nodes (Rose.positions enumerates them in pre-order).
 
-   Guards.  Theorems named `_partial` hold for a separator that is a single character `[c]`: for a
-   multi-character separator the clause is FALSE for bigtree (known finding K3: str.lstrip/rstrip
-   take a character set), see C09_multichar_sep_refuted at the end.  The relative-path theorems
-   additionally need c <> '*' and components that are "*" or contain no '*'. *)
-From BT Require Import Base.Prelude Base.Str Base.Rose Algo.Search Spec.PC09 Algo.SearchProofs.
+   Guards.  Theorems named `_partial` hold for a separator that is a single character `[c]`, for
+   EVERY query string.  Theorems named `_multi` hold for a separator of any positive length under
+   the guard that excludes known finding K3 (str.lstrip/rstrip take a character set):
+     names_sfree w sep  — no character of the separator occurs in any name of the tree, and
+     clean sep path     — the query, after removing whole trailing/leading separators, neither ends
+                          nor starts with a character of the separator (query_clean for a query).
+   Both parts of the guard are necessary: C09_multichar_sep_refuted (a name ending in a separator
+   character) and C09_multichar_query_refuted (a query ending in one) at the end.  The relative-path
+   theorems additionally need '*' not in the separator and components that are "*" or contain no '*'. *)
+From BT Require Import Base.Prelude Base.Str Base.StrSep Base.Rose Algo.Search Spec.PC09 Algo.SearchProofs.
 
 (* ---- the whole property, for every query kind --------------------------------------------- *)
 
@@ -31,6 +36,14 @@ Theorem C09_model_satisfies_spec_partial : forall i c o,
   si_sep i = [c] -> c <> 42%N -> model i = Some o -> prop_C09 i o = true.
 Proof. exact model_satisfies_spec. Qed.
 Print Assumptions C09_model_satisfies_spec_partial.
+
+(* all fourteen functions, separator of any positive length without '*', under the K3 guard *)
+Theorem C09_model_satisfies_spec_multi : forall i o,
+  si_sep i <> [] -> memN 42%N (si_sep i) = false ->
+  names_sfree (si_tree i) (si_sep i) = true -> query_clean (si_sep i) (si_query i) = true ->
+  model i = Some o -> prop_C09 i o = true.
+Proof. exact model_satisfies_spec_multi. Qed.
+Print Assumptions C09_model_satisfies_spec_multi.
 
 (* ---- clause by clause ------------------------------------------------------------------------- *)
 
@@ -117,6 +130,41 @@ Theorem C09_relative_spec_partial : forall w c p s path mn mx,
 Proof. exact relative_spec. Qed.
 Print Assumptions C09_relative_spec_partial.
 
+(* ---- the path-string clauses for separators of any positive length ----------------------------- *)
+
+(* stripping the character set = removing whole separators, on clean queries *)
+Theorem C09_strip_is_trim_multi : forall sep path,
+  clean sep path = true -> lstrip (rstrip path sep) sep = trim sep path.
+Proof. exact strip_clean. Qed.
+Print Assumptions C09_strip_is_trim_multi.
+
+Theorem C09_path_suffix_multi : forall w sep path q n,
+  ends_ok sep (trim_right sep path) = true ->
+  locate w q = Some n -> sat_path w sep path q = path_ends sep (rstrip path sep) n.
+Proof. exact path_suffix_multi. Qed.
+Print Assumptions C09_path_suffix_multi.
+
+Theorem C09_full_path_iff_multi : forall w sep p s path n,
+  sep <> [] -> names_sfree w sep = true -> sibling_names_unique w = true -> clean sep path = true ->
+  locate w p = Some s ->
+  (find_full_path sep s path = Ret (Some n)
+   <-> exists q, locate w q = Some n /\ join sep (names_to w q) = trim sep path).
+Proof. exact full_path_iff_multi. Qed.
+Print Assumptions C09_full_path_iff_multi.
+
+Theorem C09_relative_spec_multi : forall w sep p s path mn mx,
+  sep <> [] -> memN 42%N sep = false -> clean sep path = true ->
+  locate w p = Some s -> startswith path sep = false ->
+  plain_components (components sep path) = true ->
+  match denote w (has_wildcard (components sep path)) (components sep path) p with
+  | None => find_relative_paths sep s path mn mx = Raise SearchError
+  | Some L => exists M, map (locate w) L = map Some M
+                        /\ find_relative_paths sep s path mn mx
+                           = if count_violated (length L) mn mx then Raise SearchError else Ret (map Some M)
+  end.
+Proof. exact relative_spec_multi. Qed.
+Print Assumptions C09_relative_spec_multi.
+
 (* ---- the hypotheses are satisfiable by non-trivial inputs ------------------------------------ *)
 
 Definition L (i : nat) (nm : N) (ks : list tree) : tree := T (Some i) [nm] [] ks.
@@ -149,3 +197,28 @@ Definition k3_input : sinput :=
 Example C09_multichar_sep_refuted :
   exists i o, valid_input i = true /\ model i = Some o /\ o = ONode None /\ prop_C09 i o = false.
 Proof. exists k3_input, (ONode None). vm_compute. repeat split. Qed.
+
+(* the multi-character guard is satisfiable: the fixture with sep "->", start node e,
+   find_full_path "->a->b->e->h->" (trailing separator) and the relative path "..->..->*" *)
+Definition arrow : str := [45; 62]%N.
+Example C09_nonvacuous_multi :
+  names_sfree w0 arrow = true /\ sibling_names_unique w0 = true /\ memN 42%N arrow = false
+  /\ query_clean arrow (QFindFullPath [45; 62; 97; 45; 62; 98; 45; 62; 101; 45; 62; 104; 45; 62]%N) = true
+  /\ query_clean arrow (QFindRelPaths [46; 46; 45; 62; 46; 46; 45; 62; 42]%N 0 0) = true
+  /\ exists s, locate w0 [0; 1] = Some s
+     /\ obs_of (run_query arrow s (QFindFullPath [45; 62; 97; 45; 62; 98; 45; 62; 101; 45; 62; 104; 45; 62]%N)) = ONode (Some 5)
+     /\ obs_of (run_query arrow s (QFindRelPaths [46; 46; 45; 62; 46; 46; 45; 62; 42]%N 0 0)) = ONodes [Some 1; Some 6].
+Proof. vm_compute. repeat split. eexists. repeat split. Qed.
+
+(* the query half of the guard is necessary too: sep "->", tree r -> a (names free of '-' and '>'),
+   find_full_path(r, "->r->a-") returns the node a although no node has the full path "->r->a-" *)
+Definition k3_query_input : sinput :=
+  SI (T (Some 0) [114%N] [] [T (Some 1) [97%N] [] []]) [45; 62]%N []
+     (QFindFullPath [45; 62; 114; 45; 62; 97; 45]%N).
+
+Example C09_multichar_query_refuted :
+  names_sfree (si_tree k3_query_input) (si_sep k3_query_input) = true
+  /\ query_clean (si_sep k3_query_input) (si_query k3_query_input) = false
+  /\ model k3_query_input = Some (ONode (Some 1))
+  /\ prop_C09 k3_query_input (ONode (Some 1)) = false.
+Proof. vm_compute. repeat split. Qed.
